@@ -117,13 +117,12 @@ WeightsFor(b) == IF Len(b) > 9 THEN {Zero, Half, One}
 ChooseBins(b) == /\ fam = "none" /\ "twohot" \in FAMS
                  /\ fam' = "twohot" /\ stage' = 1 /\ p' = [bins |-> b]
 
-(* x on and between the edges, both extremes included; only float32-exact x *)
+(* x on and between the edges, both extremes included; only float32-exact x. *)
+(* (\E v \in {e} binds the evaluated e: TLC would re-evaluate a LET per use) *)
 ChooseX(k, w) ==
   /\ fam = "twohot" /\ stage = 1
-  /\ LET b == p.bins
-         x == QAdd(b[k], QMul(w, QSub(b[k + 1], b[k])))
-         row == TwoHot(b, x)
-     IN /\ Dyadic(x)
+  /\ \E b \in {p.bins} : \E x \in {QAdd(b[k], QMul(w, QSub(b[k + 1], b[k])))} : \E row \in {TwoHot(b, x)} :
+        /\ Dyadic(x)
         /\ fam' = fam /\ stage' = 2 /\ p' = [bins |-> b, x |-> x]
         /\ Emit("TwoHot",
                 [bins |-> b, x |-> x, sentinel_ok |-> SentinelAdequate(b), iota |-> IsIota(b)],
@@ -132,17 +131,18 @@ ChooseX(k, w) ==
                  ulps |-> IF AllDyadic(row) THEN 0 ELSE 4])
 
 TH == fam = "twohot" /\ stage >= 2
-Row == TwoHot(p.bins, p.x)
-Support == {k \in 1..Len(p.bins) : Row[k][1] # 0}
-
-TwoHotNonNeg == TH => \A k \in 1..Len(p.bins) : QLe(Zero, Row[k]) /\ Row[k][2] > 0
-TwoHotSumOne == TH => QEq(BSum(Row), One)
-TwoHotAtMostTwoAdjacent == TH => /\ Cardinality(Support) \in {1, 2}
-                                 /\ \A i, j \in Support : Abs(i - j) <= 1
-TwoHotDecodeInverts == TH => QEq(Decode(p.bins, Row), p.x)
-TwoHotEdgeIsOneHot == TH => \A k \in 1..Len(p.bins) : QEq(p.x, p.bins[k]) => (Support = {k} /\ Row[k] = One)
-TwoHotBetweenIsTwoHot == TH => \A k \in 1..(Len(p.bins) - 1) :
-                           (QLt(p.bins[k], p.x) /\ QLt(p.x, p.bins[k + 1])) => Support = {k, k + 1}
+SupportOf(row) == {k \in 1..Len(row) : row[k][1] # 0}
+TwoHotNonNeg == TH => \E row \in {TwoHot(p.bins, p.x)} : \A k \in 1..Len(row) : QLe(Zero, row[k]) /\ row[k][2] > 0
+TwoHotSumOne == TH => \E row \in {TwoHot(p.bins, p.x)} : QEq(BSum(row), One)
+TwoHotAtMostTwoAdjacent == TH => \E sup \in {SupportOf(TwoHot(p.bins, p.x))} :
+                                   /\ Cardinality(sup) \in {1, 2}
+                                   /\ \A i, j \in sup : Abs(i - j) <= 1
+TwoHotDecodeInverts == TH => \E row \in {TwoHot(p.bins, p.x)} : QEq(Decode(p.bins, row), p.x)
+TwoHotEdgeIsOneHot == TH => \E row \in {TwoHot(p.bins, p.x)} :
+                             \A k \in 1..Len(row) : QEq(p.x, p.bins[k]) => (SupportOf(row) = {k} /\ row[k] = One)
+TwoHotBetweenIsTwoHot == TH => \E sup \in {SupportOf(TwoHot(p.bins, p.x))} :
+                                \A k \in 1..(Len(p.bins) - 1) :
+                                  (QLt(p.bins[k], p.x) /\ QLt(p.x, p.bins[k + 1])) => sup = {k, k + 1}
 (* the masked-argmin search of the code finds the lower edge of the definition *)
 (* whenever the bin range fits under the sentinel ...                          *)
 TwoHotMechanismSound == (TH /\ SentinelAdequate(p.bins)) => MaskedArgmin(p.bins, p.x) = LowerIdx(p.bins, p.x)
@@ -201,7 +201,8 @@ ChooseDelta(d) == /\ fam = "none" /\ "huber" \in FAMS
 ChooseError(e) == /\ fam = "huber" /\ stage = 1
                   /\ fam' = fam /\ stage' = 2 /\ p' = [delta |-> p.delta, e |-> e]
                   /\ Emit("Huber", [delta |-> p.delta, e |-> e, abs_e |-> QAbs(e)],
-                          [loss |-> HuberPiecewise(QAbs(e), p.delta)])
+                          [loss |-> HuberPiecewise(QAbs(e), p.delta),
+                           branch |-> IF QLe(QAbs(e), p.delta) THEN "quadratic" ELSE "linear"])
 
 HV == fam = "huber" /\ stage = 2
 HuberAgree == HV => HuberMinResidual(QAbs(p.e), p.delta) = HuberPiecewise(QAbs(p.e), p.delta)
@@ -244,15 +245,20 @@ AddRow(r) ==
                          ulps |-> IF IsPow2(p.n * p.m) THEN 0 ELSE 4])
 
 MV == fam = "mse" /\ stage = 3
-MSEMaskedRowsIgnored == MV => \A i \in 1..p.n : p.mask[i] = 0 =>
-                          \A r \in [1..p.m -> Pairs] :
-                            MaskedMSE([p.rows EXCEPT ![i] = r], p.mask) = MaskedMSE(p.rows, p.mask)
+(* a masked row has weight zero: changing any single entry of it (prediction and  *)
+(* target) leaves the loss unchanged; every row is in the lattice, so by induction *)
+(* over the entries a masked row can be replaced by any other row                 *)
+MSEMaskedRowsIgnored == MV => \E base \in {MaskedMSE(p.rows, p.mask)} :
+                          \A i \in 1..p.n : p.mask[i] = 0 =>
+                            \A j \in 1..p.m, pr \in Pairs :
+                              MaskedMSE([p.rows EXCEPT ![i][j] = pr], p.mask) = base
 MSEAllMaskedIsZero == (MV /\ \A i \in 1..p.n : p.mask[i] = 0) => MaskedMSE(p.rows, p.mask) = Zero
 MSEFullMaskIsMean == (MV /\ \A i \in 1..p.n : p.mask[i] = 1) =>
                        MaskedMSE(p.rows, p.mask) = QDiv(QSum([i \in 1..p.n |-> SqErrRow(p.rows[i])]), I(p.n * p.m))
 MSENonNeg == MV => QLe(Zero, MaskedMSE(p.rows, p.mask))
-MSEUnmaskingMonotone == MV => \A i \in 1..p.n : p.mask[i] = 0 =>
-                          QLe(MaskedMSE(p.rows, p.mask), MaskedMSE(p.rows, [p.mask EXCEPT ![i] = 1]))
+MSEUnmaskingMonotone == MV => \E base \in {MaskedMSE(p.rows, p.mask)} :
+                          \A i \in 1..p.n : p.mask[i] = 0 =>
+                            QLe(base, MaskedMSE(p.rows, [p.mask EXCEPT ![i] = 1]))
 
 ----------------------------------------------------------------------------
 (* avg_l1_norm(x, eps) = x / max(mean|x|, eps) (norm.py:37)                    *)
@@ -292,7 +298,7 @@ AddElem(v) ==
      IN /\ fam' = fam /\ stage' = (IF done THEN 2 ELSE 1)
         /\ p' = [p EXCEPT !.x = x]
         /\ done => Emit("AvgL1", [x |-> x, eps |-> p.eps, scale |-> p.scale],
-                        [out |-> r.out, unit |-> r.unit,
+                        [out |-> r.out, unit |-> r.unit, clamped |-> r.clamped,
                          ulps |-> IF r.unit = "1" /\ IsPow2(p.n) /\ AllDyadic(r.out) THEN 0 ELSE 4])
 
 AV == fam = "avgl1" /\ stage = 2
@@ -346,15 +352,23 @@ SchedReachesEnd == (SV /\ SK >= 2) => Sched[SK] = p.e
 SchedWithinEnds == SV => \A i \in 1..p.T : QLe(QMin(p.s, p.e), Sched[i]) /\ QLe(Sched[i], QMax(p.s, p.e))
 
 ----------------------------------------------------------------------------
+(* domains of the parameterised actions (empty unless the action is enabled) *)
+XIntervals  == IF fam = "twohot" /\ stage = 1 THEN 1..(Len(p.bins) - 1) ELSE {}
+XWeights    == IF fam = "twohot" /\ stage = 1 THEN WeightsFor(p.bins) ELSE {}
+LogitLevels == IF fam = "twohot" /\ stage = 2 /\ "ce" \in FAMS /\ Len(p.bins) <= MaxCE
+               THEN [1..Len(p.bins) -> {0, 1}] ELSE {}
+Masks       == IF fam = "mse" /\ stage = 1 THEN [1..p.n -> {0, 1}] ELSE {}
+PairRows    == IF fam = "mse" /\ stage = 2 THEN [1..p.m -> Pairs] ELSE {}
+
 Next ==
   \/ \E b \in TwoHotBins : ChooseBins(b)
-  \/ (fam = "twohot" /\ stage = 1 /\ \E k \in 1..(Len(p.bins) - 1), w \in WeightsFor(p.bins) : ChooseX(k, w))
-  \/ (fam = "twohot" /\ stage = 2 /\ "ce" \in FAMS /\ Len(p.bins) <= MaxCE /\ \E lv \in [1..Len(p.bins) -> {0, 1}], c \in Offsets : ChooseLogits(lv, c))
+  \/ \E k \in XIntervals, w \in XWeights : ChooseX(k, w)
+  \/ \E lv \in LogitLevels, c \in Offsets : ChooseLogits(lv, c)
   \/ \E d \in Deltas : ChooseDelta(d)
   \/ \E e \in Errs : ChooseError(e)
   \/ \E s \in Shapes : ChooseShape(s[1], s[2])
-  \/ (fam = "mse" /\ stage = 1 /\ \E mk \in [1..p.n -> {0, 1}] : ChooseMask(mk))
-  \/ (fam = "mse" /\ stage = 2 /\ \E r \in [1..p.m -> Pairs] : AddRow(r))
+  \/ \E mk \in Masks : ChooseMask(mk)
+  \/ \E r \in PairRows : AddRow(r)
   \/ \E n \in 1..4, tag \in EpsTags, scale \in {"unit", "tiny"} : ChooseLen(n, tag, scale)
   \/ \E v \in Vals : AddElem(v)
   \/ \E T \in 1..MaxT : ChooseT(T)
